@@ -27,7 +27,7 @@ def FM(p, name):
 
 class MatchPlain(Contract):
     """_Match.match without REALPATH: result <=> (exists i. M(include[i], name)) and not (exists j. M(exclude[j], name))."""
-    module, qual, props = '_wcmatch', '_Match.match', ('C01', 'C07', 'C08')
+    module, qual, props = '_wcmatch', '_Match.match', ('C01', 'C07', 'C08', 'C09', 'C02')
     assumptions = ('re.Pattern.fullmatch is the uninterpreted full-match relation M(regex, name) (its language is the business of relang)',)
 
     def inputs(self):
@@ -60,9 +60,9 @@ class MatchPlain(Contract):
             some_inc = z3.Exists([i], z3.And(i >= 0, i < me.n, FM(INC(i), me.name)))
             some_exc = z3.And(z3.Not(me.excl_none), z3.Exists([j], z3.And(j >= 0, j < me.m, FM(EXC(j), me.name))))
             return pyvc.truthy(c.ret) == z3.And(some_inc, z3.Not(some_exc))
-        return [('_Match.match.accepts_iff_some_inclusion_regex_FULLY_matches_and_no_exclusion_regex_does', ('C01', 'C07', 'C08'), post)]
+        return [('_Match.match.accepts_iff_some_inclusion_regex_FULLY_matches_and_no_exclusion_regex_does', ('C01', 'C07', 'C08', 'C09', 'C02'), post)]
 
-    obligation_props = {'_Match.match.loop': ('C01', 'C07')}
+    obligation_props = {'_Match.match.loop': ('C01', 'C07', 'C09')}
 
 
 class MatchReal(Contract):
